@@ -26,7 +26,8 @@ CONSTANTS
     MaxOps,      \* bound on the number of operations of a behaviour (state constraint in MC modules)
     MaxBlocks,   \* bound on live blocks
     MaxDepth,    \* bound on frame nesting
-    MaxFail      \* budget of injected base allocator failures
+    MaxFail,     \* budget of injected base allocator failures
+    RecordHist   \* TRUE: keep the history of steps (behaviour emission); FALSE: model checking (history not needed)
 
 W == 30
 CS == INSTANCE ChunkSize WITH W <- 30
@@ -335,7 +336,8 @@ ExpS(res, addr, extra, chs, c, liveset, frs, nparts) ==
      inclaim |-> \E i \in 1..Len(frs) : frs[i].kind = "claim",
      inprep |-> FALSE]
 
-Step(a, args, exp) == hist' = Append(hist, [a |-> a, args |-> args, exp |-> exp]) /\ nops' = nops + 1
+\* (TLC evaluates operator arguments lazily: with RecordHist = FALSE the expectation records are never built)
+Step(a, args, exp) == (hist' = IF RecordHist THEN Append(hist, [a |-> a, args |-> args, exp |-> exp]) ELSE hist) /\ nops' = nops + 1
 
 NoX == [none |-> TRUE]
 
@@ -885,7 +887,7 @@ ScopeTwice(ls) ==
           /\ nextId' = nextId + 2 * n
           /\ last' = 0
           /\ UNCHANGED <<cfg, ma, frames, blocks, cps, order, parts, fails, dropped>>
-          /\ hist' = hist \o <<enter(chunks, cur)>> \o r1.steps \o <<exit(x1.chunks, x1.cur, fr.cp)>>
+          /\ hist' = IF ~RecordHist THEN hist ELSE hist \o <<enter(chunks, cur)>> \o r1.steps \o <<exit(x1.chunks, x1.cur, fr.cp)>>
                            \o <<enter(x1.chunks, x1.cur)>> \o r2.steps \o <<exit(x2.chunks, x2.cur, fr2.cp)>>
           /\ nops' = nops + 2 * (n + 2)
 
@@ -913,7 +915,7 @@ ResetLoop(ls, rounds) ==
           /\ nextId' = nextId + rounds * Len(ls)
           /\ blocks' = <<>> /\ cps' = <<>> /\ last' = 0 /\ order' = <<>> /\ parts' = {}
           /\ UNCHANGED <<cfg, ma, frames, fails, dropped>>
-          /\ hist' = hist \o r.steps
+          /\ hist' = IF ~RecordHist THEN hist ELSE hist \o r.steps
           /\ nops' = nops + rounds * (Len(ls) + 1)
 
 \* ---- requests whose size computation overflows (a layout close to isize::MAX) -----------------------
@@ -946,7 +948,7 @@ Realloc(id, wrap) ==
           /\ order' = Append(Without(order, id), nextId)
           /\ parts' = parts \cap DOMAIN blocks'
           /\ UNCHANGED <<cfg, ma, frames, cps, fails, dropped>>
-          /\ hist' = hist \o <<
+          /\ hist' = IF ~RecordHist THEN hist ELSE hist \o <<
                 [a |-> "dealloc", args |-> [id |-> id, wrap |-> wrap, sz |-> b.sz, al |-> b.al],
                  exp |-> [res |-> "ok", addr |-> 0, cur |-> cur, pos |-> IF cur = 0 THEN 0 ELSE chs1[cur].pos,
                           allocated |-> StatAllocated(chs1, cur), count |-> StatCount(chs1, cur), nchunks |-> Len(chs1),
